@@ -648,3 +648,9 @@ func VerifSrcSetAbsolute(srcset string, pageURL *nurl.URL) string {
 func VerifBlocks(root *html.Node, pageURL *nurl.URL, skipUnlikely bool) extractor.VerifBlocksData {
 	return extractor.NewContentExtractor(root, pageURL, nil).VerifBlocks(skipUnlikely)
 }
+
+// VerifFilterTrace: the article extractor's block list at every stage it logs, with the DOM
+// answers the filters read for each initial block (one pass).
+func VerifFilterTrace(root *html.Node, pageURL *nurl.URL, skipUnlikely bool) extractor.VerifFilterTraceData {
+	return extractor.NewContentExtractor(root, pageURL, nil).VerifFilterTrace(skipUnlikely)
+}
